@@ -54,6 +54,26 @@ let coq_MU_RLOCK_FIELD =
 let coq_LONG_WAIT_THRESHOLD =
   Zpos (Coq_xO (Coq_xI (Coq_xI (Coq_xI Coq_xH))))
 
+(** val coq_ETIMEDOUT : coq_Z **)
+
+let coq_ETIMEDOUT =
+  Zpos (Coq_xO (Coq_xI (Coq_xI (Coq_xI (Coq_xO (Coq_xI Coq_xH))))))
+
+(** val coq_EINTR : coq_Z **)
+
+let coq_EINTR =
+  Zpos (Coq_xO (Coq_xO Coq_xH))
+
+(** val coq_EAGAIN : coq_Z **)
+
+let coq_EAGAIN =
+  Zpos (Coq_xI (Coq_xI (Coq_xO Coq_xH)))
+
+(** val coq_EINVAL : coq_Z **)
+
+let coq_EINVAL =
+  Zpos (Coq_xO (Coq_xI (Coq_xI (Coq_xO Coq_xH))))
+
 (** val writer_type_zero_to_acquire : coq_Z **)
 
 let writer_type_zero_to_acquire =
@@ -122,3 +142,23 @@ let reader_type_clear_on_acquire =
 
 let reader_type_clear_on_uncontended_release =
   Z0
+
+(** val time_no_deadline_sec : coq_Z **)
+
+let time_no_deadline_sec =
+  Zpos (Coq_xI (Coq_xI (Coq_xI (Coq_xI (Coq_xI (Coq_xI (Coq_xI (Coq_xI
+    (Coq_xI (Coq_xI (Coq_xI (Coq_xI (Coq_xI (Coq_xI (Coq_xI (Coq_xI (Coq_xI
+    (Coq_xI (Coq_xI (Coq_xI (Coq_xI (Coq_xI (Coq_xI (Coq_xI (Coq_xI (Coq_xI
+    (Coq_xI (Coq_xI (Coq_xI (Coq_xI (Coq_xI (Coq_xI (Coq_xI (Coq_xI (Coq_xI
+    (Coq_xI (Coq_xI (Coq_xI (Coq_xI (Coq_xI (Coq_xI (Coq_xI (Coq_xI (Coq_xI
+    (Coq_xI (Coq_xI (Coq_xI (Coq_xI (Coq_xI (Coq_xI (Coq_xI (Coq_xI (Coq_xI
+    (Coq_xI (Coq_xI (Coq_xI (Coq_xI (Coq_xI (Coq_xI (Coq_xI (Coq_xI (Coq_xI
+    Coq_xH))))))))))))))))))))))))))))))))))))))))))))))))))))))))))))))
+
+(** val time_no_deadline_nsec : coq_Z **)
+
+let time_no_deadline_nsec =
+  Zpos (Coq_xI (Coq_xI (Coq_xI (Coq_xI (Coq_xI (Coq_xI (Coq_xI (Coq_xI
+    (Coq_xI (Coq_xO (Coq_xO (Coq_xI (Coq_xO (Coq_xO (Coq_xI (Coq_xI (Coq_xO
+    (Coq_xI (Coq_xO (Coq_xI (Coq_xI (Coq_xO (Coq_xO (Coq_xI (Coq_xI (Coq_xI
+    (Coq_xO (Coq_xI (Coq_xI Coq_xH)))))))))))))))))))))))))))))
